@@ -447,8 +447,11 @@ func (s *stream) Close(closeWithCancel bool) {
 	})
 	s.observers = nil
 
+	s.dirtyLock.Lock()
 	s.offsets = wrapper.CreateConcurrentSwissMap[uint16, *models.Offset](1024)
 	s.dirtyOffsets = wrapper.CreateConcurrentSwissMap[uint16, bool](1024)
+	s.anyDirtyOffset = false
+	s.dirtyLock.Unlock()
 
 	logger.Log.Info("stream stopped")
 	s.eventHandler.AfterStreamStop()
